@@ -1070,7 +1070,20 @@ def tree_ops(t):
 # decision tables: concrete interpretation of a small pure function over the bool fields of `self`
 
 
-def decision_table(body, fields, limit=400):
+def enum_table(body, prog, adt_name, limit=400):
+    """Evaluate a small pure method of an enum for each variant of `*self` (payload field 0 = the symbol "n"):
+    -> {variant: int | "n" | variant name} or None when the body leaves the interpretable fragment."""
+    adt = prog.adt(adt_name)
+    out = {}
+    for i, v in enumerate(adt["variants"]):
+        r = decision_table(body, [], limit=limit, self_value=("variant", adt_name, v["name"], ["n"], v.get("discr", i)))
+        if r is None:
+            return None
+        out[v["name"]] = r[()]
+    return out
+
+
+def decision_table(body, fields, limit=400, self_value=None):
     """Evaluate `body` (a method of a struct whose result depends only on the bool fields `fields` of `*self`) for
     every assignment of those fields.  -> {tuple(bools in the order of `fields`): variant name | int | bool} or None
     if some path leaves the interpretable fragment (calls, loops, unknown places).  Understands moves, `!`, tuples,
@@ -1084,7 +1097,7 @@ def decision_table(body, fields, limit=400):
 
         def val_place(pl):
             l = pl["l"]
-            v = ("self",) if l == 1 else env.get(l, UNK)
+            v = (self_value if self_value is not None else ("self",)) if l == 1 else env.get(l, UNK)
             for p in pl["p"]:
                 if p == "*":
                     continue
@@ -1111,6 +1124,8 @@ def decision_table(body, fields, limit=400):
                 if "variant" in c:
                     return ("variant", c.get("ty"), c["variant"], [], c.get("v"))
                 if isinstance(c.get("v"), (int, bool)):
+                    return c["v"]
+                if "def" in c and isinstance(c.get("v"), int):
                     return c["v"]
                 return UNK
             pl = op_place(op)
@@ -1176,6 +1191,8 @@ def decision_table(body, fields, limit=400):
                 if isinstance(r, tuple) and r and r[0] == "variant":
                     return r[2]
                 return r
+            elif t["k"] == "drop":
+                bb = t["t"]
             else:
                 return UNK
         return UNK
